@@ -25,7 +25,10 @@ from graphql import (
     SelectionNode,
     SelectionSetNode,
     StringValueNode,
+    TypeInfo,
+    TypeInfoVisitor,
     Visitor,
+    get_named_type,
     is_abstract_type,
     print_ast,
     visit,
@@ -192,8 +195,10 @@ class ResultTypesGenerator:
         )
         for used_fragment in sorted(self._get_all_related_fragments()):
             operation_str += "\n\n" + print_ast(
-                self._get_node_without_mixin_directive(
-                    self.fragments_definitions[used_fragment]
+                self._add_typename_to_abstract_fields(
+                    self._get_node_without_mixin_directive(
+                        self.fragments_definitions[used_fragment]
+                    )
                 )
             )
 
@@ -637,6 +642,31 @@ class ResultTypesGenerator:
             ):
                 names = names.union(self._get_fragments_names(node.selection_set))
         return names
+
+    def _add_typename_to_abstract_fields(self, node: Node) -> Node:
+        """Classes of fragments used as mixins are generated after the operations,
+        the __typename they require has to be in the fragment that is sent."""
+        type_info = TypeInfo(self.schema)
+
+        class AddTypenameVisitor(Visitor):
+            @staticmethod
+            def enter_field(field: FieldNode, *_args: Any) -> None:
+                if not field.selection_set or not is_abstract_type(
+                    get_named_type(type_info.get_type())
+                ):
+                    return
+                selections = field.selection_set.selections
+                if not any(
+                    isinstance(s, FieldNode) and s.name.value == TYPENAME_FIELD_NAME
+                    for s in selections
+                ):
+                    field.selection_set.selections = (
+                        FieldNode(name=NameNode(value=TYPENAME_FIELD_NAME)),
+                        *selections,
+                    )
+
+        visit(node, TypeInfoVisitor(type_info, AddTypenameVisitor()))
+        return node
 
     def _get_node_without_mixin_directive(self, node: Node) -> Node:
         class RemoveMixinVisitor(Visitor):
